@@ -97,6 +97,13 @@ CHECKS = {
                      "Dask) and TLC validates each logged pair against the relation.",
                 technique="metamorphic relation specified in TLA+, model-checked on P/D operators; code->spec trace validation of opaque-token pairs",
                 ref="§6 C17"),
+    "C20": dict(engine="ActiveGeom/MC_ActiveGeom",
+                text="State machine of a frame's columns / active geometry (P) and of GeoDataFrame._geometry as pandas' propagation classes and "
+                     "Dask's meta / partitions leave it (D); TLC checks that the mechanism honours the active geometry after every operation "
+                     "sequence of bounded length; every behaviour is replayed on real (Dask)GeoDataFrames and after each step the projected "
+                     "state (type, .geometry.name, per-partition active geometry, which column cx / partition bounds really use) is compared.",
+                technique="TLC model checking of a state machine; spec->code replay with abstract-state projection after every action",
+                ref="§6 C20"),
 }
 
 NOT_YET = {}
